@@ -872,7 +872,8 @@ class Converter:
             args, attrs = param_manipulation.separate_input_attributes_from_arguments(
                 op_signature, node.args, kwargs, fill_defaults=False
             )
-            args = [self._translate_opt_expr(x) for x in args]
+            # A None entry stands for an optional input that was omitted before a keyword input
+            args = [None if x is None else self._translate_opt_expr(x) for x in args]
             attrs = [self._translate_attr(x, y, op_signature.get(x)) for x, y in attrs.items()]
         else:
             args = [self._translate_opt_expr(x) for x in node.args]
